@@ -125,11 +125,11 @@ Qed.
 
 (* histories with diverging steps: under G12c every step is either a reported failure of a step that really diverges, or it
    solves with fresh parts; a step that does not diverge is never reported as failed *)
-Definition step_ok (d : bool) (r : option fstate) : Prop :=
-  match r with None => d = true | Some fr => d = false /\ solve_is_fresh fr = true end.
+Definition step_ok (d : bool) (r : sres) : Prop :=
+  match r with SFailed => d = true | SSolved fr => d = false /\ solve_is_fresh fr = true | SSilent => False end.
 Lemma run_steps_div_ok divs : forall cs stored fr,
   G12c cs = true -> Forall (fun c => sound c = true) cs -> fresh fr ->
-  Forall2 step_ok divs (run_steps_div divs cs stored false fr).
+  Forall2 step_ok divs (run_steps_div divs cs false stored false fr).
 Proof.
   induction divs as [|d ds IH]; intros cs stored fr HG Hs Hf; cbn; [constructor|].
   destruct d.
@@ -138,16 +138,25 @@ Proof.
   - pose proof (time_step_fresh cs stored fr Hs Hf) as H1.
     constructor; [split; [reflexivity | apply solve_is_fresh_iff; exact H1] | apply IH; assumption].
 Qed.
-(* without the guard: a tap controller (initial run) + a recyclable ConstControl: after one diverging step the following,
+(* without G12c: a tap controller (initial run) + a recyclable ConstControl: after one diverging step the following,
    solvable steps are reported as failed *)
 Lemma divergence_poisons_refuted :
   exists cs divs, Forall (fun c => sound c = true) cs /\
-    ~ Forall2 step_ok divs (run_steps_div divs cs false false all_fresh).
+    ~ Forall2 step_ok divs (run_steps_div divs cs false false false all_fresh).
 Proof.
   exists [CConst false "load" "p_mw"; CTap false "trafo"], [false; true; false].
   split; [repeat constructor|].
   intros H. inversion H as [|? ? ? ? _ H2]. subst. inversion H2 as [|? ? ? ? _ H3]. subst.
   inversion H3 as [|? ? ? ? H4 _]. subst. cbn in H4. discriminate.
+Qed.
+(* with batch reading (only_v_results) a diverging recycled step is recorded silently *)
+Lemma divergence_silent_refuted :
+  exists cs divs, G12c cs = true /\ Forall (fun c => sound c = true) cs /\
+    ~ Forall2 step_ok divs (run_steps_div divs cs true false false all_fresh).
+Proof.
+  exists [CConst false "load" "p_mw"], [false; true].
+  split; [reflexivity|]. split; [repeat constructor|].
+  intros H. inversion H as [|? ? ? ? _ H2]. subst. inversion H2 as [|? ? ? ? H3 _]. subst. exact H3.
 Qed.
 
 (* exhaustive over the finite (element, variable) domain: every ConstControl is sound *)
